@@ -220,6 +220,12 @@ func init() {
 		return ok && strings.Contains(string(data), `"object"`)
 	})
 
+	// msgpack.Unmarshal counts map entries, not distinct keys: a map that
+	// repeats a key for an object type yields an object value lacking attributes.
+	regKnown("c17MsgpackObjectDuplicateKey", func(_ string, _ json.RawMessage, f *facet.Failure) bool {
+		return f != nil && f.Kind == "nonconforming" && f.Data["decoder"] == DMsgpackValue && f.Data["shape"] == "object-missing-attributes"
+	})
+
 	// cty.SetVal unmarks every member deeply, which rebuilds nested sets through
 	// SetVal again: building a set nested d levels deep costs 2^d. The depth is
 	// attacker-controlled through the type descriptor of a dynamic wrapper.
